@@ -8,7 +8,7 @@ for l in open(sys.argv[1]):
         log[m.group(1)] = m.group(2)
 print("| seed | idea of the change (what it needs to manifest) | result of `./check <prop> quick` |")
 print("|---|---|---|")
-for sid in sorted(os.listdir("/verif/seeded")):
+for sid in sorted(x for x in os.listdir("/verif/seeded") if os.path.isdir("/verif/seeded/" + x)):
     meta = json.load(open("/verif/seeded/%s/meta.json" % sid))
     idea = re.sub(r"\s+", " ", meta.get("summary", ""))
     idea = idea[:230] + ("…" if len(idea) > 230 else "")
